@@ -10,6 +10,8 @@
 //! MAYV_SELARMS=timed (default): the arms of the select variant are sleep / SyncFlag::wait_timeout / Semphore::wait_timeout;
 //!             =recv: two arms block in mpsc::Receiver::recv (REPLAY of a finding: the cancelled select never ends, see
 //!             props/C09.json; not part of the checked variants).
+//!             =poll: the same receive as a loop of try_recv + sleep in the scenario; with MAYV_O2TAG=1 the arm reports the
+//!             evidence of the finding (text `O2e: ...`, known finding F33e) and ends the run.
 //! MAYV_SELOTHERS=mutex: in the select variant the other parties hold a Mutex guard across a yield (REPLAY of finding
 //!             F33b: spurious poisoning while the cancelled select owner is suspended inside its unwinding).
 //!
@@ -84,6 +86,37 @@ impl Drop for Owned {
             TWICE.fetch_add(1, Ordering::SeqCst);
         }
         DROPS.fetch_add(1, Ordering::SeqCst);
+    }
+}
+
+/// set by main right before it calls cancel() on the target
+static CANCEL_REQ: AtomicBool = AtomicBool::new(false);
+
+/// receive of a select arm written as a loop: try_recv, then a cancellation point (sleep).  A select coroutine that the
+/// cqueue has cancelled dies at that point - unless the cancel panic is suppressed: CancelImpl::check_cancel raises it only
+/// `if !thread::panicking()`, and std::thread::panicking() is a counter of the OS thread, which stays 1 while the cancelled
+/// owner of the select is suspended inside its unwinding (Cqueue::finish waits for the arms) on this worker (O2).
+fn poll_recv(rx: &may::sync::mpsc::Receiver<u32>) -> Option<u32> {
+    let mut n = 0u64;
+    loop {
+        match rx.try_recv() {
+            Ok(v) => return Some(v),
+            Err(std::sync::mpsc::TryRecvError::Disconnected) => return None,
+            Err(std::sync::mpsc::TryRecvError::Empty) => {}
+        }
+        may::coroutine::sleep(Duration::from_micros(100));
+        n += 1;
+        if n == 300 {
+            let c = mayv::ctx();
+            if std::env::var("MAYV_O2TAG").is_ok() && CANCEL_REQ.load(Ordering::SeqCst) && std::thread::panicking() {
+                // evidence of O2: the target was cancelled, this arm is not unwinding (it executes this line), its thread
+                // reports panicking, and its cancellation point has returned 300 times in a row
+                c.fail("O2e: a select arm of the cancelled coroutine is never cancelled: its cancellation point returned 300 times without raising the cancel panic while std::thread::panicking() is true on its thread (the owner is suspended inside its unwinding there); the owner's join never returns".into());
+            } else {
+                c.fail(format!("a select arm polled 300 times without a message, a timeout of the select or its own cancellation (cancel requested: {}, thread::panicking(): {})", CANCEL_REQ.load(Ordering::SeqCst), std::thread::panicking()));
+            }
+            mayv::finish(mayv::ctl(), 0);
+        }
     }
 }
 
@@ -327,10 +360,18 @@ fn main() {
                             // the arms own values too: whatever happens to the select they are dropped once
                             let (v1, v2) = (Owned::new(5), Owned::new(6));
                             if selarms == "recv" {
-                                // arms blocked in mpsc::Receiver::recv: see the finding in props/C09.json (replay only)
+                                // arms blocked in mpsc::Receiver::recv: finding F33e, seen as a HANG (replay only)
                                 may::select!(
                                     r = rx.recv() => { let _v = &v1; if r.is_ok() { TGOT.fetch_add(1, Ordering::SeqCst); } },
                                     r = rx2.recv() => { let _v = &v2; if r.is_ok() { TGOT.fetch_add(1, Ordering::SeqCst); } },
+                                    _ = may::coroutine::sleep(Duration::from_millis(4)) => {}
+                                );
+                            } else if selarms == "poll" {
+                                // the same receive written as a loop in the scenario (try_recv + a cancellation point), so that
+                                // the arm itself can see why it is never cancelled: finding F33e with its evidence
+                                may::select!(
+                                    r = poll_recv(&rx) => { let _v = &v1; if r.is_some() { TGOT.fetch_add(1, Ordering::SeqCst); } },
+                                    r = poll_recv(&rx2) => { let _v = &v2; if r.is_some() { TGOT.fetch_add(1, Ordering::SeqCst); } },
                                     _ = may::coroutine::sleep(Duration::from_millis(4)) => {}
                                 );
                             } else {
@@ -440,6 +481,7 @@ fn main() {
             ctx.point();
         }
         let rounds_at_cancel = TROUNDS.load(Ordering::SeqCst);
+        CANCEL_REQ.store(true, Ordering::SeqCst);
         unsafe { target.coroutine().cancel() };
         match target.join() {
             Ok(()) => ctx.fail("cancelled coroutine finished normally".into()),
